@@ -85,7 +85,7 @@ func (c *Ctx) compareReads(pj *simdjson.ParsedJson, specDump string, info map[st
 
 func checkC02(c *Ctx) {
 	r := c.Rng
-	c.Ev.Coverage.Rule = "accepted documents read through every path of the real API (Advance+Root+Array.Iter+NextElementBytes, Interface()/Map(), ParsedJson/Array/Object.ForEach, AdvanceIter+Object.Parse) compared with each other, with the typed bulk accessors (Array.AsFloat/AsInteger/AsUint64/AsString/AsStringCvt/Interface/MarshalJSON, Object.Map/FindKey/...) judged against plain traversal, with the modelled read paths run on the same tape, with the tape's denotation and with the specification's document; tapes also compared word for word with the model's. Streams: grammar-directed documents (G1), boundary-positioned ones (G7), deep nesting 1..3000, wide containers >= 3*1408 members, duplicate keys, every scalar kind, arrays of numbers at the int64/uint64/float64 edges. non-trivial = accepted document; distinct = by input bytes"
+	c.Ev.Coverage.Rule = "accepted documents read through every path of the real API (Advance+Root+Array.Iter+NextElementBytes, Interface()/Map(), ParsedJson/Array/Object.ForEach, AdvanceIter+Object.Parse) compared with each other, with the typed bulk accessors (Array.AsFloat/AsInteger/AsUint64/AsString/AsStringCvt/Interface/MarshalJSON, Object.Map/FindKey/...) judged against plain traversal, with the modelled read paths run on the same tape, with the tape's denotation and with the specification's document; tapes also compared word for word with the model's. Streams: grammar-directed documents (G1), boundary-positioned ones (G7), deep nesting 1..3000, wide containers >= 3*1408 members, duplicate keys, every scalar kind, arrays of numbers at the int64/uint64/float64 edges. values returned by Interface()/String() re-read after the ParsedJson was reused and the input overwritten (copying mode). non-trivial = accepted document; distinct = by input bytes"
 	flags := ChkVerdict | ChkDump | ChkModel | ChkKernels | ChkCopyModes | ChkNoPanic
 	var batch []PCase
 	nreads := 0
@@ -181,5 +181,53 @@ func checkC02(c *Ctx) {
 		}
 	}
 	flush()
+	// values handed out by the API are values, not views: what Interface() / String() /
+	// AsString returned keeps its content after the ParsedJson is parsed into again (its string
+	// buffer is reused) and after the caller's input buffer is overwritten
+	for i := 0; i < c.N(400, 4000); i++ {
+		doc := genDoc(r, &GenOpts{MaxDepth: 3, MaxFan: 4, TopFan: 3 + r.Intn(6), WS: r.Intn(3)})
+		cp := i%3 != 0
+		buf := append([]byte{}, doc...)
+		out := implParse(buf, false, cp, nil)
+		if out.Err {
+			continue
+		}
+		it := out.PJ.Iter()
+		v, err := it.Interface()
+		if err != nil {
+			continue
+		}
+		var strs []string
+		if pos, e := flatPositions(out.PJ, 300); e == nil {
+			for _, p := range pos {
+				if p.Tag == simdjson.TagString {
+					pi := iterAt(out.PJ, p.K)
+					if s, e := pi.String(); e == nil {
+						strs = append(strs, s)
+					}
+				}
+			}
+		}
+		var b1 strings.Builder
+		dumpIface(&b1, v)
+		before := b1.String() + "|" + strings.Join(strs, "\x00")
+		// reuse the parser for another document of about the same size, then scribble over the input
+		other := genDoc(r, &GenOpts{MaxDepth: 3, MaxFan: 4, TopFan: 3 + r.Intn(6), WS: r.Intn(3)})
+		if cp {
+			implParse(other, false, true, out.PJ)
+		}
+		for k := range buf {
+			buf[k] = '#'
+		}
+		var b2 strings.Builder
+		dumpIface(&b2, v)
+		after := b2.String() + "|" + strings.Join(strs, "\x00")
+		c.Ev.Count("retained-values", doc, true)
+		if cp && before != after {
+			c.Violate("document", "values returned by Interface()/String() changed after the ParsedJson was parsed into again and the input buffer overwritten (copying mode)", "retained-values",
+				map[string]interface{}{"doc_hex": fmt.Sprintf("%x", doc), "doc_text": printable(doc), "next_doc": printable(other), "before": trunc(before, 400), "after": trunc(after, 400)})
+			break
+		}
+	}
 	c.Ev.Note(fmt.Sprintf("read-path comparisons (5 paths x model) on %d parsed results", nreads))
 }
